@@ -50,6 +50,9 @@ pub enum T {
     DecrCurSame,
     AppendCurSame,
     PrependCurSame,
+    /// stores carrying a TTL of 2 s (time stands still during the concurrent phase)
+    SetTtl,
+    AddTtl,
     /// append / prepend carrying a CAS that does not match (refused)
     AppendStale,
     PrependStale,
@@ -89,6 +92,8 @@ pub fn instantiate(t: T, client: usize, key: &[u8], other: &[u8]) -> Cmd {
         T::DecrCurSame => Cmd::Delta { incr: false, key: k, delta: 1, initial: 100, exp: 0, cas: CasArg::Current, quiet: false },
         T::AppendCurSame => Cmd::Concat { append: true, key: k, value: b"+".to_vec(), cas: CasArg::Current, quiet: false },
         T::PrependCurSame => Cmd::Concat { append: false, key: k, value: b"-".to_vec(), cas: CasArg::Current, quiet: false },
+        T::SetTtl => Cmd::Store { kind: StoreKind::Set, key: k, value: tag("T"), flags: 110 + client as u32, ttl: 2, cas: CasArg::Zero, quiet: false },
+        T::AddTtl => Cmd::Store { kind: StoreKind::Add, key: k, value: tag("U"), flags: 120 + client as u32, ttl: 2, cas: CasArg::Zero, quiet: false },
         T::AppendStale => Cmd::Concat { append: true, key: k, value: tag("+"), cas: CasArg::Stale1, quiet: false },
         T::PrependStale => Cmd::Concat { append: false, key: k, value: tag("-"), cas: CasArg::Stale1, quiet: false },
         T::SetNew => Cmd::Store { kind: StoreKind::Set, key: format!("new{}", client).into_bytes(), value: tag("N"), flags: 80, ttl: 0, cas: CasArg::Zero, quiet: false },
@@ -149,6 +154,7 @@ fn opts(max_bound: u32, tier: Tier) -> SchedOpts {
         c15: false,
         max_steps: 20_000,
         max_execs: if tier == Tier::Quick { 400_000 } else { 20_000_000 },
+        advance_after: 0,
     }
 }
 
@@ -626,7 +632,20 @@ pub fn c05_families(tier: Tier) -> Vec<Family> {
         }
         p3.push(mk(Init::Expired, vec![vec![c], vec![T::Get], vec![T::Get]], K, K, keys.clone(), Policy::None));
     }
+    // a store with a TTL racing any other command, then time passes: however the race went, the
+    // stored record expires at its own timestamp + TTL
+    let mut pt = vec![];
+    for init in [Init::Absent, Init::Present] {
+        for st in [T::SetTtl, T::AddTtl] {
+            for other in [T::Flush, T::FlushLater, T::Get, T::Del, T::Set, T::SetTtl, T::Append, T::Incr, T::SetOther] {
+                pt.push(mk(init, vec![vec![st], vec![other]], K, b"o01", vec![K.to_vec(), b"o01".to_vec()], Policy::None));
+            }
+            pt.push(mk(init, vec![vec![st], vec![T::Flush], vec![T::Get]], K, b"o01", vec![K.to_vec(), b"o01".to_vec()], Policy::None));
+        }
+    }
+    let ot = SchedOpts { advance_after: 5, check_lin: false, ..o };
     vec![
+        Family { name: "ttl-store-vs-cmd-then-time-passes".into(), programs: pt, opts: ot },
         Family { name: "expired/cmd-vs-get".into(), programs: p2, opts: o },
         Family { name: "expired/cmd-vs-get-vs-get".into(), programs: p3, opts: SchedOpts { max_bound: if tier == Tier::Quick { 2 } else { 64 }, ..o } },
     ]
